@@ -22,6 +22,24 @@ pub fn main(args: &[String]) {
         ppcmp::materialise(&root, &c);
         cases.push(c);
     }
+    // include chains around the recursion limit: the file route and the string route must count levels alike (k nested files under the top text)
+    for k in [1usize, 2, 63, 64, 65, 66] {
+        let dir = format!("chain{}", k);
+        let mut c = calls::text_case(&dir, &format!("`include \"{}/i01.svh\"\nmodule top_m; endmodule\n", dir));
+        for j in 1..=k {
+            let body = if j == k { "wire leaf_w;\n".to_string() } else { format!("`include \"{}/i{:02}.svh\"\n", dir, j + 1) };
+            c.files.push((format!("{}/i{:02}.svh", dir, j), Some(body)));
+        }
+        ppcmp::materialise(&root, &c);
+        cases.push(c);
+    }
+    // texts whose first bytes are unusual: nothing may be normalised by one route only (byte order mark, CR LF, form feed, NUL, no final newline)
+    for (j, t) in ["\u{feff}`define W 8\nmodule m;\n  wire [`W-1:0] x;\nendmodule\n", "\u{feff}module m; endmodule\n", "\r\nmodule m;\r\nendmodule\r\n", "\x0cmodule m; endmodule", "\u{0}module m; endmodule\n",
+                   "module m; endmodule", "\u{feff}library rtlLib \"*.v\" -incdir \"aaa\";\ninclude \"bbb\";\n", "  \n\n", ""].iter().enumerate() {
+        let c = calls::text_case(&format!("odd{}", j), t);
+        ppcmp::materialise(&root, &c);
+        cases.push(c);
+    }
     std::env::set_current_dir(&root).unwrap();
     let cases = std::sync::Arc::new(cases);
     let c2 = cases.clone();
@@ -55,7 +73,7 @@ pub fn main(args: &[String]) {
         } } }
         (fails, evals, ok)
     });
-    let mut rep = Report::new("generated preprocessor cases with include trees, corpus programs, and bad files (missing / non-UTF-8 / missing include) x all values of ignore_include, allow_incomplete, strip_comments; each comparison of two entry points is one evaluation; non-trivial = case on which at least one entry succeeds; distinct by case files");
+    let mut rep = Report::new("generated preprocessor cases with include trees, corpus programs, bad files (missing / non-UTF-8 / missing include), include chains of 1, 2, 63, 64, 65, 66 nested files, and texts with unusual first bytes (byte order mark, CR LF, form feed, NUL, empty) x all values of ignore_include, allow_incomplete, strip_comments; each comparison of two entry points is one evaluation; non-trivial = case on which at least one entry succeeds; distinct by case files");
     for (case, (fails, evals, ok)) in cases.iter().zip(results.into_iter()) {
         let key = format!("{:?}{:?}", case.files, case.defines);
         rep.case(key.as_bytes(), ok > 0);
